@@ -3,6 +3,7 @@ import Dblib.Model.PacketQueueDriver
 import Dblib.Model.Isolation
 import Dblib.Model.ChanRxDriver
 import Dblib.Model.UseDriver
+import Dblib.Model.Value
 import Dblib.Model.PacketReaderDriver
 import Dblib.Model.Mux
 import Dblib.Model.Life
@@ -23,6 +24,8 @@ def handle (line : String) : String :=
   | "iso" :: args => Isolation.run args
   | "rx" :: args => Codec.runRx args
   | "use" :: args => Codec.runUse args
+  | "val" :: args => Value.run args
+  | "cal" :: args => Value.runCal args
   | "rd" :: args => Reader.run args
   | "rdraw" :: args => Reader.runRaw args
   | "wf" :: args => Reader.runWf args
